@@ -18,7 +18,9 @@ def run(P, rep, tier):
         'kind consumes, diffs returned as bytes and never inheriting an encoding, indent only for preambles); R3 '
         'transformation order and granularity (indentation stripped per line of the declared/detected newline split, '
         'before decoding; nothing trimmed afterwards); R4 line endings detected from the first line only; R5 header '
-        'tolerance idioms (blank lines skipped, integer conversion covers -?[0-9]+).')
+        'tolerance idioms (blank lines skipped, integer conversion covers -?[0-9]+); R7 line accounting (the "line" of a '
+        'record is the reader\'s counter at its header; the counter starts at 0, advances by exactly 1 per header and by '
+        'len(split_lines(raw content, section newline)) per content block, and nothing else writes it).')
     rep.undecided = 'equality of yielded content/options with the specification\'s reading on concrete files'
     rep.trusted_base += ['folded option choice sets of options.py', 'summaries of utils/text.py']
     R, res = rr.analyse(P, tier)
@@ -163,3 +165,15 @@ def run(P, rep, tier):
             rep.ok(r5, '%s: one record per header' % X)
         else:
             rep.violation(r5, 'yield-count:%s' % X, R.entry.loc(), 'section %s is yielded %s times on some path' % (X, res[X]['yields_per_path']))
+
+    # ---- R7 line accounting -------------------------------------------------------------------
+    r7 = rep.rule('C03-R7', 'logical line of a record = line counter at its header; the counter advances by 1 per header and by the '
+                  'number of lines of the raw content (split on the section newline) per content block', reference=5)
+    try:
+        rr.line_accounting_rule(P, rep, r7, R)
+        rep.floor(r7, 5 if not rep.violations else 0)
+    except AnalysisError as e:
+        # a tree the other rules already reject is reported as such; an unanalysable counter alone fails the run
+        if not rep.violations:
+            raise
+        rep.info('C03-R7 could not be decided on this tree (%s); the violations above stand on their own' % str(e)[:200])
